@@ -978,6 +978,12 @@ class Interp:
             return a + b
         if isinstance(a, str) and isinstance(op, ast.Mod):
             return Opaque("str%")
+        if isinstance(op, ast.Mult) and (isinstance(a, (str, list, tuple)) or isinstance(b, (str, list, tuple))):
+            seq, k_ = (a, b) if isinstance(a, (str, list, tuple)) else (b, a)
+            if isinstance(k_, Num) and k_.is_const():
+                return seq * int(k_.value())
+            if isinstance(k_, Num) and isinstance(seq, str):
+                return Opaque("str")
         if isinstance(a, Opaque) and a.tag == "str" or isinstance(b, Opaque) and b.tag == "str":
             return Opaque("str")
         arr = None
